@@ -57,6 +57,10 @@ def try_(name, ids):
     sh("git -C /repo worktree remove --force %s" % wt)
     sh("git -C /repo worktree add -q --detach %s HEAD" % wt, check=True)
     res = {}
+    evbak = "/tmp/evbak_" + name
+    shutil.rmtree(evbak, ignore_errors=True)
+    if os.path.isdir(os.path.join(VERIF, "evidence")):
+        shutil.copytree(os.path.join(VERIF, "evidence"), evbak)
     try:
         sh(["git", "-C", wt, "apply", patch], check=True)
         env = dict(ENV, VERIF_REPO=wt)
@@ -71,6 +75,12 @@ def try_(name, ids):
                 print(p.stdout[-2000:])
     finally:
         sh("git -C /repo worktree remove --force %s" % wt)
+        # evidence written while a seeded change was applied is not evidence of /repo: restore
+        if os.path.isdir(evbak):
+            shutil.rmtree(os.path.join(VERIF, "evidence"), ignore_errors=True)
+            shutil.copytree(evbak, os.path.join(VERIF, "evidence"))
+            shutil.rmtree(evbak, ignore_errors=True)
+        shutil.rmtree(os.path.join(VERIF, "replays"), ignore_errors=True)
     mp = os.path.join(dst, "meta.json")
     meta = json.load(open(mp))
     meta.setdefault("caught_by", {}).update({k: v for k, v in res.items()})
